@@ -574,3 +574,140 @@ func (h *httpAPI) runSOp(ledgerName string, so SOp) (res OpResult) {
 	}
 	return res
 }
+
+// ---------------------------------------------------------------- the v1 API (writes as v1 requests; state read back through v2)
+
+// v1Normalise: what a v1 request can express: no force / accountMetadata on create, no atEffectiveDate / metadata on revert
+func v1Normalise(o Op) Op {
+	switch o.Kind {
+	case "create":
+		o.Force, o.AccMeta = false, nil
+	case "revert":
+		o.AtEff, o.Meta = false, nil
+	}
+	return o
+}
+
+func v1RequestOf(ledgerName string, o Op) (method, path string, hdr map[string]string, body string) {
+	hdr = map[string]string{}
+	if o.IK != "" {
+		hdr["Idempotency-Key"] = o.IK
+	}
+	q := url.Values{}
+	if o.Dry {
+		q.Set("preview", []string{"true", "yes", "1", "TRUE"}[len(o.IK)%4])
+	}
+	base := "/" + ledgerName
+	switch o.Kind {
+	case "create":
+		var ps []string
+		for _, p := range o.Post {
+			ps = append(ps, fmt.Sprintf(`{"source":%s,"destination":%s,"asset":%s,"amount":%s}`, jsonStr(p.Src), jsonStr(p.Dst), jsonStr(p.Asset), p.Amt.String()))
+		}
+		fs := []string{`"postings":[` + strings.Join(ps, ",") + `]`}
+		if len(o.Meta) > 0 || len(o.Post)%2 == 0 {
+			fs = append(fs, `"metadata":`+jsonMeta(o.Meta))
+		}
+		if o.TS != nil {
+			fs = append(fs, `"timestamp":`+jsonStr(rfc3339us(*o.TS)))
+		}
+		if o.Ref != "" {
+			fs = append(fs, `"reference":`+jsonStr(o.Ref))
+		}
+		method, path, body = "POST", base+"/transactions", "{"+strings.Join(fs, ",")+"}"
+	case "revert":
+		if o.Force {
+			q.Set("disableChecks", "true")
+		}
+		method, path = "POST", fmt.Sprintf("%s/transactions/%d/revert", base, o.TxID)
+	case "setmeta":
+		method, body = "POST", jsonMeta(o.Meta)
+		if o.IsAcc {
+			path = base + "/accounts/" + url.PathEscape(o.TgtAcc) + "/metadata"
+		} else {
+			path = fmt.Sprintf("%s/transactions/%d/metadata", base, o.TxID)
+		}
+	case "delmeta":
+		method = "DELETE"
+		if o.IsAcc {
+			path = base + "/accounts/" + url.PathEscape(o.TgtAcc) + "/metadata/" + url.PathEscape(o.Key)
+		} else {
+			path = fmt.Sprintf("%s/transactions/%d/metadata/%s", base, o.TxID, url.PathEscape(o.Key))
+		}
+	}
+	if len(q) > 0 {
+		path += "?" + q.Encode()
+	}
+	return
+}
+
+func (h *httpAPI) runOpV1(ledgerName string, o Op) (res OpResult) {
+	method, path, hdr, body := v1RequestOf(ledgerName, o)
+	resp := h.do(method, path, hdr, body)
+	res.HTTP = true
+	if resp.Code == 599 {
+		res.Panic = string(resp.Body)
+		return res
+	}
+	if resp.Code >= 300 {
+		res.Class = resp.errClass()
+		return res
+	}
+	res.Class = "none"
+	res.Hit = resp.Hdr.Get("Idempotency-Hit") == "true"
+	want := map[string]int{"create": 200, "revert": 201, "setmeta": 204, "delmeta": 204}[o.Kind]
+	if resp.Code != want {
+		res.Class = fmt.Sprintf("%d:unexpected-success-status", resp.Code)
+		return res
+	}
+	type v1tx struct {
+		TxID     *int64 `json:"txid"`
+		Postings []struct {
+			Source, Destination, Asset string
+			Amount                     jAmount
+		} `json:"postings"`
+	}
+	var t v1tx
+	switch o.Kind {
+	case "create": // v1 answers with a one-element array
+		var env struct {
+			Data []v1tx `json:"data"`
+		}
+		if err := json.Unmarshal(resp.Body, &env); err != nil || len(env.Data) != 1 {
+			res.Class = "200:undecodable-body " + short(resp.Body)
+			return res
+		}
+		t = env.Data[0]
+	case "revert":
+		var env struct {
+			Data v1tx `json:"data"`
+		}
+		if err := json.Unmarshal(resp.Body, &env); err != nil {
+			res.Class = "201:undecodable-body " + short(resp.Body)
+			return res
+		}
+		t = env.Data
+	default:
+		return res
+	}
+	if t.TxID == nil {
+		res.Class = "200:no-txid " + short(resp.Body)
+		return res
+	}
+	res.TxID = t.TxID
+	// the postings of a created transaction are the submitted ones, digit for digit (v1 renders amounts as JSON numbers)
+	if o.Kind == "create" {
+		if len(t.Postings) != len(o.Post) {
+			res.Class = "200:postings-differ"
+			return res
+		}
+		for i, p := range t.Postings {
+			q := o.Post[i]
+			if p.Source != q.Src || p.Destination != q.Dst || p.Asset != q.Asset || string(p.Amount) != q.Amt.String() {
+				res.Class = fmt.Sprintf("200:postings-differ at %d: %v", i, p)
+				return res
+			}
+		}
+	}
+	return res
+}
